@@ -324,6 +324,38 @@ theorem match_build_url_partial {cfg : MapCfg} {specs : List RuleSpec} {m : RMap
   rw [hpp]
   exact match_build_partial hm hr hbo hbind hnodom values hgram hbuild hclosed hdom hrt hok mg rd halias hothers
 
+def adapterEx : Adapter :=
+  { serverName := "example.org:8080".toList, scriptName := "/app/".toList, subdomain := some [], urlScheme := "https".toList,
+    defaultMethod := "GET".toList, queryArgs := .none }
+
+example : ScriptOK adapterEx :=
+  ⟨by decide +kernel, by decide +kernel, by decide +kernel, by decide +kernel, by unfold noCut; decide +kernel⟩
+
+-- non-vacuity of `match_build_url_partial`: on the map of `exSpec` + another rule, with an extra query value,
+-- both the relative and the forced external URL read back and match to the rule with the built values
+example : (match mkMap {} [exSpec, { toks := [.slash, .lit "other".toList, .slash, .var (.string 1 none none) "s".toList], endpoint := "o".toList }] with
+    | some m =>
+      let vals := exValues ++ [("q".toList, Value.str "x y".toList)]
+      [false, true].all (fun fe =>
+        match adapterBuild m.cfg adapterEx m.rules "e".toList vals none fe true with
+        | .ok url =>
+          (url == (if fe then "https://example.org:8080/app/r/id--05.html/a%20b;%3F%23%25%C3%A9/?q=x+y".toList
+                   else "/app/r/id--05.html/a%20b;%3F%23%25%C3%A9/?q=x+y".toList)) &&
+          (match readBuilt m.cfg adapterEx url with
+           | some (a2, pathInfo) =>
+             a2.subdomain == some [] &&
+             (match matchSM m.root true true ⟨"GET".toList, false⟩ [] (pathPart pathInfo) with
+              | .ok r1 vals' => r1.idx == 0 && vals' == exValues
+              | _ => false)
+           | none => false)
+        | .error _ => false) &&
+      (match m.rules with
+       | [r, _] => (match buildSide r vals (traceToks r.pathToks) with
+                    | .ok upath => upath.all (fun c => c != '?' && c != '#') && upath.take 2 != "//".toList
+                    | _ => false)
+       | _ => false)
+    | none => false) = true := by decide +kernel
+
 /-- **build_match_fixpoint_partial (rule level).** Rebuilding a rule's path from what the match of its own
 URL returns — the built values per variable plus the rule's defaults (`match_build_partial`) — gives the
 same text: `build(match(build(values))) = build(values)` for the rule that was selected. -/
